@@ -218,4 +218,55 @@ example : CpsOk exCfg.cps := ⟨by simp [exCfg], by simp [exCfg]⟩
 example : InvC01 exCfg (run exCfg (init exCfg exPeers) [.newPeer 1, .headers 1 [1, 2], .headers 1 [3, 4]]) :=
   C01_chain_valid_partial exCfg (by decide) exPeers _
 
+
+/-- a flip-back history: A = 1,2 stored; B = 3,4,5 (fork at 1) heavier; A extended by 6,7 heavier again -/
+def exTblFlip : Tbl :=
+  { parent := fun i => match i with
+      | 1 => some 0 | 2 => some 1 | 3 => some 1 | 4 => some 3 | 5 => some 4 | 6 => some 2 | 7 => some 6 | _ => none
+    work := fun i => if i == 7 then 2 else 1
+    valid := fun _ => true
+    fresh := fun _ => true }
+def exCfgFlip : Cfg := { tbl := exTblFlip, cps := [], win := 8 }
+def exPeersFlip : List Peer := [{ id := 1, cand := true }]
+def exFlip : List Ev := [.newPeer 1, .headers 1 [1, 2], .headers 1 [3, 4, 5], .headers 1 [1, 2, 6, 7]]
+
+/-- **by-hash = exactly the stored chain, in every reachable state** - after any number of
+reorganisations, branch flips back to a branch stored before, failed writes and imports: a hash
+the client was ever given resolves iff its header is on the chain read by height, and then at the
+position it is stored at.  (The differential run asks the real store for EVERY hash of the world
+after every event and compares with this; the oracle clause is `lookupsAgree`.) -/
+theorem C01_hash_resolves_iff_stored (c : Cfg) (hw : 1 ≤ c.win) (peers : List Peer) (es : List Ev) :
+    let s := run c (init c peers) es
+    s.corrupt = false ∧
+    (∀ id, (idxOf s.log id).isSome = true ↔ id ∈ s.log) ∧
+    (∀ id i, idxOf s.log id = some i → s.log[i]? = some id) := by
+  intro s
+  have h := inv1_run c hw _ es (inv1_init c peers)
+  exact ⟨h.clean, fun id => idxOf_isSome_iff _ id, fun id i hi => (idxOf_some hi).2⟩
+
+/-- the store as it is (no memo): whatever is written, rolled back and asked, in any order, a
+hash resolves iff it is on the stored chain -/
+theorem C01_store_resolves_iff_on_chain (s0 : MemoSt) (ops : List SOp) (id : Nat) :
+    ((srun false s0 ops).resolve false id).isSome = true ↔ id ∈ (srun false s0 ops).log := by
+  simp only [MemoSt.resolve, Bool.false_eq_true, ↓reduceIte]
+  exact idxOf_isSome_iff _ id
+
+/-- the full statement for a store with a look-up memo that roll-backs do not invalidate ... -/
+def C01_memo_store_resolves_iff_on_chain : Prop :=
+  ∀ (ops : List SOp) (id : Nat),
+    ((srun true {} ops).resolve true id).isSome = true ↔ id ∈ (srun true {} ops).log
+
+/-- ... is false: write header 1, ask for it, roll it back - it still resolves. -/
+theorem C01_memo_survives_rollback_counterexample : ¬ C01_memo_store_resolves_iff_on_chain := by
+  intro h
+  have := h [.write [1], .ask 1, .rollback] 1
+  revert this
+  decide
+
+example : (srun true {} [.write [1], .ask 1, .rollback, .write [2]]).log = [0, 2] ∧
+    (srun true {} [.write [1], .ask 1, .rollback, .write [2]]).resolve true 1 = some 1 ∧
+    (srun false {} [.write [1], .ask 1, .rollback, .write [2]]).resolve false 1 = none := by decide
+example : (run exCfgFlip (init exCfgFlip exPeersFlip) exFlip).log = [0, 1, 2, 6, 7] ∧
+    idxOf (run exCfgFlip (init exCfgFlip exPeersFlip) exFlip).log 3 = none := by decide
+
 end Neutrino.BM
